@@ -53,7 +53,10 @@ func (s *Sim) DeliverHeader(b *MBlock) {
 	r := s.r
 	h := b.Msg.Header
 	parentKnown := s.nodeKnown(b.Parent)
-	tooNew := b.H.ts > s.adjNow()+7200
+	// (a header the node already has may or may not be judged against the
+	// clock again)
+	lateDup := b.H.ts > s.adjNow()+7200 && s.nodeKnown(b)
+	tooNew := b.H.ts > s.adjNow()+7200 && !lateDup
 	ownBad := b.Class != ClsValid && headerDetectable[b.Reason]
 	isMain, err := s.n.Chain.ProcessBlockHeader(&h, blockchain.BFNone, false)
 	res := "ok"
@@ -80,6 +83,8 @@ func (s *Sim) DeliverHeader(b *MBlock) {
 		}
 		r.Probe("invalid-header-judged")
 		s.judgedInv++
+	case lateDup:
+		r.Probe("known-header-redelivered-when-too-new")
 	case s.excluded(b.Parent) && s.markedInvalid[b.Parent] && s.nodeKnown(b.Parent):
 		// the parent was invalidated by the operator (directly or through an
 		// ancestor): the node knows it is invalid
